@@ -24,7 +24,7 @@ func init() { register(c10{}) }
 func (c10) ID() string    { return "C10" }
 func (c10) Level() string { return "fault_enumeration" }
 func (c10) Rule() string {
-	return "packets of the C01 domain plus malformed-but-constructible ones (QoS 3, no filters, no topic, zero packet id, will QoS 3) x writers: succeeding; failing before writing (0,E); accepting only the first k bytes then (k,E) for EVERY k below the frame length when the frame is <= 256 bytes (boundary and log-spaced k above). Offline check of the recorded Write calls: bytes handed to the writer form exactly one frame (reference header parser), returned n = bytes accepted = frame length = 1+|remaining length field|+remaining length = N of String()'s 'N bytes'; with a failing writer the returned error is the writer's (errors.Is) and n the bytes it accepted; Undefined writes nothing and returns an error. distinct = (packet signature, writer script); non-trivial = optional field present or failing writer"
+	return "packets of the C01 domain plus malformed-but-constructible ones (QoS 3, no filters, no topic, zero packet id, will QoS 3) x writers: succeeding; failing before writing (0,E); accepting only the first k bytes then (k,E) for EVERY k below the frame length when the frame is <= 256 bytes (boundary and log-spaced k above), and k = frame length (everything accepted, error reported all the same). Offline check of the recorded Write calls: bytes handed to the writer form exactly one frame (reference header parser), returned n = bytes accepted = frame length = 1+|remaining length field|+remaining length = N of String()'s 'N bytes'; with a failing writer the returned error is the writer's (errors.Is) and n the bytes it accepted; Undefined writes nothing and returns an error. distinct = (packet signature, writer script); non-trivial = optional field present or failing writer"
 }
 func (c10) Assumptions() []string {
 	return []string{"writers obey io.Writer: a short write comes with a non-nil error", "string fields avoid the substring ' bytes' so that the size printed by String() parses unambiguously"}
@@ -185,8 +185,9 @@ func (c10) Run(c *run.Ctx, phase, idx int) {
 			ks = append(ks, k)
 		}
 	}
+	ks = append(ks, L) // k = L: the writer takes the whole frame and reports an error all the same
 	for i, k := range ks {
-		if k < 0 || k >= L {
+		if k < 0 || k > L {
 			continue
 		}
 		if i%256 == 0 {
@@ -196,7 +197,7 @@ func (c10) Run(c *run.Ctx, phase, idx int) {
 		if k%3 == 1 {
 			ferr = &mon.WrappedErr{Inner: mon.ErrInjected}
 		}
-		fw := &mon.RecordingWriter{FailAt: k, Err: ferr}
+		fw := &mon.RecordingWriter{FailAt: k, Err: ferr, ErrWhenFull: k == L}
 		var n int64
 		var err error
 		pan := mon.Guard(func() { n, err = pkt.WriteTo(fw) })
